@@ -7,6 +7,8 @@ import (
 	"crypto/x509"
 	"crypto/x509/pkix"
 	"encoding/binary"
+	"encoding/hex"
+	"errors"
 	"fmt"
 	"io"
 	"math/big"
@@ -302,6 +304,13 @@ func c03Eval(c *Ctx, cs Case) {
 	}
 	bodyEnd := b.bodyEnd
 	oldEntries := extractCertTable(img)
+	// what the object holds before the next step, as far as the caller can see it: the bytes of Bytes() (cur) and the
+	// length of the file the object was parsed from, rounded up to 8 (objLen = the private field `length`)
+	var cur []byte
+	if c.GenDrv != nil {
+		cur = p.Bytes()
+	}
+	objLen := len(cur)
 	var sigs [][]byte
 	signedBy := map[int]bool{}
 	type heldImage struct {
@@ -362,7 +371,33 @@ func c03Eval(c *Ctx, cs Case) {
 		sigs = append(sigs, sig)
 		signedBy[st.key] = true
 		c.Class(fmt.Sprintf("signature-length-mod-8=%d", len(sig)%8))
+		ddBefore := ddOfHeld(cur, b.dd)
 		out := p.Bytes()
+		// ---- the TRANSLATED Sign / AppendSignature / Bytes (Gen.lean, C03g) on what the object held before the step and
+		// the signature the real Sign returned, against the real object afterwards: Datadir, the 8 bytes of the directory
+		// entry, the certificate table (the tail of Bytes() from Datadir.VirtualAddress) and Bytes() itself
+		if c.GenDrv != nil && len(cur) >= bodyEnd && int(ddBefore.size) <= len(cur) && len(out) >= b.dd+8 {
+			padEnd := (bodyEnd + 7) &^ 7
+			ddA := p.Datadir
+			tableA := []byte{}
+			if int(ddA.VirtualAddress) <= len(out) {
+				tableA = out[ddA.VirtualAddress:]
+			}
+			goObs := fmt.Sprintf("ok va=%d size=%d dd=%s table=%s bytes=%s", ddA.VirtualAddress, ddA.Size, hex.EncodeToString(out[b.dd:b.dd+8]), hex.EncodeToString(tableA), hex.EncodeToString(out))
+			c.GenTieGo(cs, fmt.Sprintf("step %d: Sign/AppendSignature/Bytes", i), goObs, "gen.pe.append",
+				hx(cur[len(cur)-int(ddBefore.size):]), fmt.Sprint(ddBefore.va), fmt.Sprint(ddBefore.size), fmt.Sprint(objLen), hx(sig),
+				hx(cur[:b.dd]), hx(cur[b.dd+8:bodyEnd]), fmt.Sprint(padEnd-bodyEnd))
+			// Signatures() of the signed object against the translated walk of that table
+			var sl []*signature.WINCertificate
+			var serr error
+			if pan, _ := safely(func() { sl, serr = p.Signatures() }); !pan {
+				c.GenTieGo(cs, fmt.Sprintf("step %d: Signatures() of the signed object", i), winCertsObs(sl, serr), "gen.pe.signatures", hx(tableA))
+			}
+			cur = out
+			if st.reparse {
+				objLen = len(out)
+			}
+		}
 		// every serialised image of the history is still held by the caller (written to disk later, compared,
 		// handed to a verifier): it is a value of its own and must not change when the object is signed and
 		// serialised again
@@ -514,6 +549,21 @@ func c03Eval(c *Ctx, cs Case) {
 				if signedBy[k] != (ok && verr == nil) {
 					fail(fmt.Sprintf("step %d: Verify on the signed object itself (certificate %d, signed by it: %v)", i, k, signedBy[k]), fmt.Sprint(ok, verr), fmt.Sprint(signedBy[k]))
 				}
+				// the TRANSLATED Verify loop on the object's table, its externals answering for every listed entry what the
+				// real ParseAuthenticode / (*Authenticode).Verify answer for that entry's body over the hash input
+				if c.GenDrv != nil && serr == nil && len(cur) > 0 {
+					verdicts := ""
+					for _, w := range sl {
+						verdicts += entryVerdictLetter(w.Certificate, cert, pre0)
+					}
+					if verdicts == "" {
+						verdicts = "-"
+					}
+					dd := ddOfHeld(cur, b.dd)
+					if int(dd.size) <= len(cur) {
+						c.GenTieGo(cs, fmt.Sprintf("step %d: Verify on the signed object (certificate %d, entries %s)", i, k, verdicts), verifyObs(ok, verr), "gen.pe.verify", hx(cur[len(cur)-int(dd.size):]), verdicts)
+					}
+				}
 			}
 			if d := p.Hash(crypto.SHA256); !bytes.Equal(d, before) {
 				fail(fmt.Sprintf("step %d: Hash() of the signed object differs from the digest before signing", i), hx(d), hx(before))
@@ -536,6 +586,59 @@ func c03Eval(c *Ctx, cs Case) {
 			return
 		}
 	}
+}
+
+type heldDD struct{ va, size uint32 }
+
+// ddOfHeld: the certificate-table directory entry in the bytes a caller holds
+func ddOfHeld(img []byte, dd int) heldDD {
+	if len(img) < dd+8 {
+		return heldDD{}
+	}
+	return heldDD{binary.LittleEndian.Uint32(img[dd:]), binary.LittleEndian.Uint32(img[dd+4:])}
+}
+
+// winCertsObs: what Signatures() returned, in the format of the driver's gen.pe.signatures
+func winCertsObs(sl []*signature.WINCertificate, err error) string {
+	if err != nil {
+		return "err"
+	}
+	var parts []string
+	for _, w := range sl {
+		parts = append(parts, fmt.Sprintf("(%d;%d;%d;%s)", w.Length, w.Revision, w.CertType, hex.EncodeToString(w.Certificate)))
+	}
+	return "ok [" + strings.Join(parts, ",") + "]"
+}
+
+// entryVerdictLetter: what the real library says of one table entry body for a certificate: P it does not parse,
+// E its verification reports an error, T / F it verifies / does not verify
+func entryVerdictLetter(body []byte, cert *x509.Certificate, hashInput []byte) string {
+	var a *authenticode.Authenticode
+	var err error
+	if pan, _ := safely(func() { a, err = authenticode.ParseAuthenticode(body) }); pan || err != nil {
+		return "P"
+	}
+	var ok bool
+	if pan, _ := safely(func() { ok, err = a.Verify(cert, bytes.NewReader(hashInput)) }); pan || err != nil {
+		return "E"
+	}
+	if ok {
+		return "T"
+	}
+	return "F"
+}
+
+// verifyObs: what Verify returned, in the format of the driver's gen.pe.verify
+func verifyObs(ok bool, err error) string {
+	switch {
+	case err == nil:
+		return fmt.Sprintf("ok %v", ok)
+	case errors.Is(err, authenticode.ErrNoSignatures):
+		return "err ErrNoSignatures"
+	case errors.Is(err, authenticode.ErrNoValidSignatures):
+		return "err ErrNoValidSignatures"
+	}
+	return "err other"
 }
 
 func c03Gen(c *Ctx) {
